@@ -297,9 +297,9 @@ fn layout(tier: Tier) -> Layout {
     Layout { programs: s.total(), boundary: boundary_programs().len() as u64, deep: (SHAPES.len() * DEPTHS.len() * DEEP_OPS.len() * 2) as u64 }
 }
 
-/// token-corpus inputs executed: everything before the K4 length-6 tier in the quick tier, all of them in the thorough tier
+/// token-corpus inputs executed: everything before the K4 length-6 tier in the quick tier, up to length 6 in the thorough tier
 fn token_total(tier: Tier) -> u64 {
-    tier.pick(crate::props::pipeline::total_before_len6(tier), crate::props::pipeline::total(tier, false))
+    tier.pick(crate::props::pipeline::total_before_len6(tier), crate::props::pipeline::total_before(tier, "k4-len7"))
 }
 
 fn deep_params(i: u64) -> (usize, Shape, usize, &'static str) {
@@ -428,7 +428,7 @@ impl Property for C07 {
     fn meta(&self, tier: Tier) -> Meta {
         let l = layout(tier);
         Meta {
-            rule: format!("(a) the {} programs of the C01 corpora and every accepted input of the C03/C04 token corpora (K1, K2, K4, K5; lengths up to 5 in the quick tier, all in the thorough tier); (b) {} boundary programs: every prefix/suffix operator on, and every binary operator (ranges, casts, concatenation, partial apply, conditionals included) between, 29 boundary literals (i32 limits, 31/32/33/64, huge float, empty and multi-byte text, empty bytes, symbol, symbol and identifier with a multi-byte name, unit, list, keyed list, range, concatenation, lists and concatenations holding text, bytes, symbols and lists), casts to the type of each literal, and index / apply / slice / slice-of-slice families over 6 container kinds x 10 boundary indexes (incl. +-1e300); each run to completion (step cap 2 000; 300 for token-corpus inputs, which include loops that never end) on both implementations under hosts {{none, declining, accepting}} (corpus programs: none and accepting in the quick tier, T4 loops without a host) with a mixed keyed/unkeyed list as input; (c) {} deep-data cases: pairs (left/right nested), lists and concatenations nested 10/100/1 000/10 000 deep built through the data API, then Equal (self, copy), LessThan, casts to CharList/ByteList/Symbol, `.|`, clone_data as single instructions. Verdict: no panic unwinds, no abort, no hang (supervised). Non-trivial: every case; distinct by text / parameters.", l.programs, l.boundary, l.deep),
+            rule: format!("(a) the {} programs of the C01 corpora and every accepted input of the C03/C04 token corpora (K1, K2, K4, K5; lengths up to 5 in the quick tier, up to length 6 in the thorough tier); (b) {} boundary programs: every prefix/suffix operator on, and every binary operator (ranges, casts, concatenation, partial apply, conditionals included) between, 29 boundary literals (i32 limits, 31/32/33/64, huge float, empty and multi-byte text, empty bytes, symbol, symbol and identifier with a multi-byte name, unit, list, keyed list, range, concatenation, lists and concatenations holding text, bytes, symbols and lists), casts to the type of each literal, and index / apply / slice / slice-of-slice families over 6 container kinds x 10 boundary indexes (incl. +-1e300); each run to completion (step cap 2 000; 300 for token-corpus inputs, which include loops that never end) on both implementations under hosts {{none, declining, accepting}} (corpus programs: none and accepting in the quick tier, T4 loops without a host) with a mixed keyed/unkeyed list as input; (c) {} deep-data cases: pairs (left/right nested), lists and concatenations nested 10/100/1 000/10 000 deep built through the data API, then Equal (self, copy), LessThan, casts to CharList/ByteList/Symbol, `.|`, clone_data as single instructions. Verdict: no panic unwinds, no abort, no hang (supervised). Non-trivial: every case; distinct by text / parameters.", l.programs, l.boundary, l.deep),
             assumptions: vec![
                 "an Err returned by a step is acceptable; only unwinding, aborting and exceeding the wall budget are violations".into(),
                 "a worker that aborts (stack overflow) or hangs is attributed to the in-flight element by the supervisor and confirmed in a fresh process".into(),
